@@ -18,7 +18,7 @@ ASSUMPTIONS = [
     "KDE order-independence is judged to rtol 1e-10 (tree summation order), the Gaussian closed form to rtol 1e-9",
 ]
 MIN_NONTRIVIAL = {"quick": 60, "thorough": 600}
-REQUIRED = {"quick": {"hist_rows": 500, "edge_probes": 300, "kde_rows": 100}, "thorough": {"hist_rows": 5000, "edge_probes": 3000, "kde_rows": 1000}}
+REQUIRED = {"quick": {"hist_rows": 500, "edge_probes": 300, "kde_rows": 100, "kde_long_rows": 6, "hist_refits": 200}, "thorough": {"hist_rows": 5000, "edge_probes": 3000, "kde_rows": 1000, "kde_long_rows": 60, "hist_refits": 2000}}
 
 
 def plan(tier, seed):
@@ -163,6 +163,28 @@ def check_hist(ctx, c):
     if r is not est:
         viol("fit-does-not-return-self", "fit returned %r" % type(r))
         return
+    # re-fit the same object on shifted data: partition and rows must be those of a fresh estimator
+    X2 = [np.asarray(s_, dtype=float) * 1.7 + 3.1 for s_ in c["X"]]
+    inside2 = sorted(set(v for s_ in X2 for v in s_ if lo < v < hi))
+    if len(inside2) >= 2:
+        try:
+            fresh = V.HistogramVectorizer(n_components=c["n_components"], strategy=c["strategy"], absolute_range=(lo, hi), append_outlier_bins=c["append_outlier_bins"]).fit(X2)
+        except Exception:
+            fresh = None  # the shifted data is not a valid training set for these parameters: nothing to compare
+            ctx.count("hist_refit_data_rejected")
+        if fresh is not None:
+            try:
+                est.fit(X2)
+                ctx.count("hist_refits")
+                iv_a = [(float(i.left), float(i.right)) for i in est.bin_intervals_]
+                iv_b = [(float(i.left), float(i.right)) for i in fresh.bin_intervals_]
+                Ta, Tb = np.asarray(est.transform(X2 + Tin[:3])), np.asarray(fresh.transform(X2 + Tin[:3]))
+                if iv_a != iv_b or Ta.shape != Tb.shape or not np.array_equal(Ta, Tb):
+                    viol("refit-differs-from-fresh-estimator", "after a second fit on other data the estimator bins differently from a fresh one", {"refit_bins": iv_a[:6], "fresh_bins": iv_b[:6]})
+                    return
+            except Exception as e:
+                viol("refit-raises/%s" % type(e).__name__, "second fit on shifted data raised %s" % str(e)[:160])
+                return
     if c["strategy"] == "uniform":
         want = c["n_components"] + (int(lo < min(inside)) + int(max(inside) < hi) if c["append_outlier_bins"] else 0)
         if len(iv) != want:
@@ -174,7 +196,8 @@ def gen_kde(r, auto=False):
     X = gen_data(r)
     X = [s + [s[0] + 0.5, s[0] + 1.25] if len(s) < 3 else s for s in X]
     return {"kind": "kde", "X": X, "bandwidth": None if auto else r.choice([0.05, 0.5, 0.7, 3.0]), "n_components": r.choice([2, 5, 9, 50]),
-            "grid": r.choice(["uniform", "uniform", "density"]), "permseed": r.randrange(10**6)}
+            "grid": r.choice(["uniform", "uniform", "density"]), "permseed": r.randrange(10**6),
+            "long": ([r.choice([8193, 10000, 20011])] if (not auto and r.random() < 0.08) else [])}
 
 
 def _sig_k(c):
@@ -226,6 +249,21 @@ def check_kde(ctx, c):
         if os_.shape != ds_.shape or not np.allclose(os_, ds_, rtol=1e-9, atol=1e-290):
             viol("short-sequence-differs-from-gaussian-kde-formula", "row of a 1- or 2-value sequence differs from mean_i N(g; x_i, h)", {"got": os_[:2], "expected": ds_[:2]})
             return
+    # long sequences (beyond any internal block size): closed form and order independence
+    if h > 0 and np.isfinite(h) and c.get("long"):
+        rl = np.random.RandomState(c["permseed"] + 1)
+        lo_, hi_ = float(g.min()), float(g.max())
+        for n_long in c["long"]:
+            sl = rl.uniform(lo_, hi_ if hi_ > lo_ else lo_ + 1.0, size=n_long)
+            ol = est.transform([sl, np.sort(sl), sl[::-1].copy()])
+            dl_ = np.array([np.mean(np.exp(-0.5 * ((gg - sl) / h) ** 2)) / (h * math.sqrt(2 * math.pi)) for gg in g])
+            ctx.count("kde_long_rows", 3)
+            if not (np.allclose(ol[0], ol[1], rtol=1e-9, atol=1e-290) and np.allclose(ol[0], ol[2], rtol=1e-9, atol=1e-290)):
+                viol("order-dependence/long-sequence", "a %d-value sequence gives different rows when sorted / reversed" % n_long)
+                return
+            if not np.allclose(ol[0], dl_, rtol=1e-8, atol=1e-290):
+                viol("long-sequence-differs-from-gaussian-kde-formula", "row of a %d-value sequence differs from mean_i N(g; x_i, h)" % n_long, {"maxrel": float(np.max(np.abs(ol[0] - dl_) / np.maximum(dl_, 1e-300)))})
+                return
     # equal multisets in different rows -> equal rows
     o3 = est.transform([X[0], X[0][::-1].copy(), np.sort(X[0])])
     if not (np.allclose(o3[0], o3[1], rtol=1e-10, atol=1e-300) and np.allclose(o3[0], o3[2], rtol=1e-10, atol=1e-300)):
